@@ -122,6 +122,40 @@ def rule_callers(P):
     return r
 
 
+def rule_snapshot(P):
+    """the range a starting index is chosen from is the descriptor count that was handed to select()/poll(): the result sets are only valid for that count"""
+    r = Rule("C46-snapshot", "K8", "the bound used for the random start and the scan is the value given to the system call (not re-read after the wait)", floor=2)
+    for fname, sysc in (("select_dispatch", "select"), ("poll_dispatch", "poll")):
+        f = P.fn(fname)
+        sc = [el for el in f.calls(sysc)]
+        rc = [el for el in f.calls("evutil_weakrand_range_")]
+        if len(sc) != 1 or len(rc) != 1:
+            r.brk("%s: expected one %s() and one evutil_weakrand_range_ call" % (fname, sysc))
+            continue
+        top = strip(rc[0].e[2][1])
+        if not is_e(top, "var"):
+            r.brk("%s: range bound is not a variable" % fname)
+            continue
+        # no store to the bound variable on any path from the system call to the choice (or to any later use in the scan loop)
+        def store_to(x):
+            if x.e[0] == "asg" and eq(strip(x.e[2]), top):
+                return True
+            if x.e[0] == "incdec" and eq(strip(x.e[3]), top):
+                return True
+            return x.e[0] == "decl" and x.e[1] == top[1]
+        w = f.path_avoiding(sc[0].pos(), store_to, lambda x: False)
+        # the bound is what the system call got (directly or +1/-1 of it)
+        sysargs = [q for a in sc[0].e[2] for q in walk(a) if is_e(q, "var")]
+        related = any(eq(q, top) for q in sysargs)
+        r.inst(fname, {"fn": fname, "syscall": sc[0].where(), "bound": show(top), "bound_given_to_syscall": related, "rewritten_after_wait": w.where() if w is not None else None})
+        if w is not None:
+            r.bad("K8:%s:bound-reread-after-wait" % fname, w.where(), fname,
+                  "%s is assigned again after %s() returned: the result sets were filled for the count given to the call, a larger count scans (and picks a start in) memory the kernel did not fill" % (show(top), sysc))
+        elif not related:
+            r.bad("K8:%s:bound-not-the-syscall-count" % fname, rc[0].where(), fname, "the range bound %s is not the descriptor count handed to %s()" % (show(top), sysc))
+    return r
+
+
 def rule_secure(P):
     r = Rule("C46-secure", "K8", "evutil_secure_rng_get_bytes forwards (buf, n) unchanged", floor=1)
     f = P.fn("evutil_secure_rng_get_bytes")
@@ -135,4 +169,4 @@ def rule_secure(P):
 
 def run(ctx, config):
     P = ctx.prog(UNITS, config)
-    return [rule_range(P), rule_callers(P), rule_secure(P)]
+    return [rule_range(P), rule_callers(P), rule_secure(P), rule_snapshot(P)]
